@@ -187,6 +187,15 @@ def run_case(ctx, case):
         ctx.count("nonfinite_fields_watched")
         arr.standin(prog, "Nn", arr.build(case["nonfinite"]), fuzzy=False)
         pool["nonfuzzy"].append("Nn")
+        # ... and a fuzzy result (of a user command, say) with NaN at non-missing cells next to a real mask array
+        f0 = arr.build(case["fuzzy"][0])
+        fdata = numpy.array(numpy.ma.getdata(f0), dtype="float64")
+        fmask = numpy.array(numpy.ma.getmaskarray(f0))
+        free = [ix for ix in numpy.ndindex(*fdata.shape) if not fmask[ix]]
+        for ix in free[case["rseed"] % 2::3][:3]:
+            fdata[ix] = numpy.nan
+        arr.standin(prog, "Fn", numpy.ma.array(fdata, mask=fmask), fuzzy=True)
+        pool["fuzzy"] += ["Fn", "Fn"]
     # a file of the working directory that EEMSRead steps read (several times, with different options)
     src_file = None
     if case["rseed"] % 4 != 3:
